@@ -172,6 +172,53 @@ func runC07(r *R) {
 		}
 	}
 
+	// ---- R7
+	r.Rule("C07-R7", "SignManifest: tokens are whitespace-delimited (\\S+); only tokens matching ^[0-9a-f]{32}.* are re-signed (after removing \\+A[^+]* hints); every other token is returned unchanged", 4)
+	for name, want := range map[string]string{arv + ".mBlkRe": `^[0-9a-f]{32}.*`, arv + ".mPermHintRe": `\+A[^+]*`} {
+		if lit, ok := r.W.GlobalRegexLiteral(name); !ok {
+			r.addS("C07-R7", name, "regex literal", "-", Undecided, "initialiser not found")
+		} else {
+			r.addS("C07-R7", name, "regex literal", "-", okIf(regexCanon(lit) == regexCanon(want)), "literal "+lit+" must denote "+want)
+		}
+	}
+	if outer := r.NeedFn("C07-R7", arv+".SignManifest"); outer != nil {
+		okTok := false
+		for _, c := range CallsIn(outer, "regexp.MustCompile") {
+			if lit, ok := ConstString(c.Common().Args[0]); ok && regexCanon(lit) == regexCanon(`\S+`) {
+				okTok = true
+			}
+		}
+		r.Check(okTok, "C07-R7", outer, "tokeniser \\S+", outer.Pos(), "whole whitespace-delimited tokens", "manifest is not tokenised on whitespace: parts of stream names / file tokens can be mistaken for locators")
+		n := 0
+		for _, cl := range Closures(outer) {
+			tok := paramOf(cl, "tok")
+			for _, c := range CallsIn(cl, arv+".SignLocator") {
+				n++
+				g, _ := Guard(cl, nil, c.(ssa.Instruction), TrueC("mBlkRe.MatchString(tok)", func(v ssa.Value) bool {
+					cc, ok := Resolve1(v).(*ssa.Call)
+					if !ok || CalleeName(cc.Common()) != "(*regexp.Regexp).MatchString" {
+						return false
+					}
+					g, ok := LoadedGlobal(cc.Call.Args[0])
+					return ok && g == arv+".mBlkRe" && same(cc.Call.Args[1], tok)
+				}))
+				r.Check(g, "C07-R7", cl, "SignLocator(tok…)", c.Pos(), "only for tokens that start with 32 hex digits", "a token that is not a block locator can be re-signed")
+			}
+			okPass := false
+			for _, ret := range Returns(cl) {
+				if same(ret.Results[0], tok) {
+					okPass = true
+				}
+			}
+			if len(CallsIn(cl, arv+".SignLocator")) > 0 {
+				r.Check(okPass, "C07-R7", cl, "return tok (unchanged)", cl.Pos(), "other tokens pass through verbatim", "non-locator tokens are not returned unchanged")
+			}
+		}
+		if n == 0 {
+			r.Bad("C07-R7", outer, "SignLocator in SignManifest", outer.Pos(), "not found")
+		}
+	}
+
 	// ---- R4
 	r.Rule("C07-R4", "keepstore handleGET: GetBlock only if BlobSigning is off or VerifySignature(cluster, req.URL.Path[1:], GetAPIToken(req)) == nil", 1)
 	if fn := r.NeedFn("C07-R4", "(*"+ks+".router).handleGET"); fn != nil {
